@@ -260,7 +260,13 @@ class H1Conn(Peer):
                         f"new request written while {len(tr.inbound)} response bytes of the previous exchange are unread")
                 if self.responses_sent < len(p.requests):
                     self.reuse_violations.append("new request written before the previous response was sent")
-        for ev, req in p.feed(data):
+        nerr = len(p.errors)
+        evs = p.feed(data)
+        if len(p.errors) > nerr and not tr.peer_eof:
+            # what a real server does with garbage: 400 and close
+            tr.send(b"HTTP/1.1 400 Bad Request\r\nConnection: close\r\nContent-Length: 0\r\n\r\n")
+            tr.shutdown()
+        for ev, req in evs:
             if ev == self.respond_at or (ev == "complete" and getattr(req, "_answered", False) is False and self.respond_at == "head" and False):
                 self._respond(tr, req)
 
